@@ -24,6 +24,7 @@ pub fn fd_only(p: &Program) -> bool {
             G::Succeed
                 | G::Fail
                 | G::Eq(..)
+                | G::Neq(..)
                 | G::Conj(_)
                 | G::Conde(_)
                 | G::Fresh(..)
@@ -60,6 +61,10 @@ pub fn fd_opts_for(tier: Tier, w: &mut crate::rng::Rng) -> FdOpts {
     }
     if w.chance(1, 4) {
         o.allow_hidden = false;
+    }
+    // tree disequalities between FD variables / constants in a quarter of the runs
+    if w.chance(1, 4) {
+        o.allow_neq = true;
     }
     o
 }
